@@ -1,12 +1,12 @@
 #!/bin/bash
 # tools/seedrun.sh <seeded-dir-name> <prop> [check args...] : apply the seeded patch to /repo, run the check, restore /repo.
 set -u
-D=/verif/seeded/$1; P=$2; shift 2
+NAME=$1; D=/verif/seeded/$1; P=$2; shift 2
 cd /verif
 git -C /repo diff --quiet || { echo "/repo is dirty; refusing"; exit 3; }
 git -C /repo apply "$D/patch.diff" || { echo "patch does not apply"; exit 3; }
 ./check $P "$@" > "$D/check-$P.out" 2>&1; RC=$?
 git -C /repo checkout -- .
-echo "$1 $P exit=$RC $(grep -c '^VIOLATION' $D/check-$P.out) violation line(s); $(grep -E '^\[' $D/check-$P.out | tail -1)"
+echo "$NAME $P exit=$RC $(grep -c '^VIOLATION' $D/check-$P.out) violation line(s); $(grep -E '^\[' $D/check-$P.out | tail -1)"
 grep -E "^VIOLATION|^  " "$D/check-$P.out" | head -4 | cut -c1-220
 exit $RC
